@@ -23,6 +23,32 @@ class Inconclusive(Exception):
     pass
 
 
+class LibraryPanic(Exception):
+    """the library itself panicked, or the Go runtime ended the process because of what the library did (concurrent map access,
+    deadlock), inside a driver process: an execution of the real code that no specification explains"""
+    def __init__(self, msg, stack, where):
+        Exception.__init__(self, msg)
+        self.msg, self.stack, self.where = msg, stack, where
+
+
+def library_crash(txt):
+    """(message, stack) if the process output shows a crash whose faulting goroutine runs library code, else None"""
+    m = re.search(r"^(panic: .*|fatal error: .*)$", txt or "", re.M)
+    if not m or "DRIVER-ERROR" in txt:
+        return None
+    rest = txt[m.start():]
+    # the first goroutine listed after the message is the faulting one
+    g = re.search(r"\ngoroutine \d+ [^\n]*\n((?:.+\n)+)", rest)
+    first = g.group(1) if g else rest[:4000]
+    if "github.com/b2broker/simplefix-go" not in first:
+        return None
+    # a crash inside harness code that merely has library frames below it is not the library's
+    top = [l for l in first.split("\n") if l and not l.startswith("\t") and not l.startswith("panic(") and not l.startswith("runtime.")]
+    if top and top[0].startswith("verifharness"):
+        return None
+    return m.group(1), rest[:3000]
+
+
 def goenv():
     e = dict(os.environ)
     e.update(GOFLAGS="-mod=mod", GOPROXY="off", GOSUMDB="off", GOTOOLCHAIN="local",
@@ -38,6 +64,9 @@ def sh(cmd, cwd=None, env=None, timeout=None, check=True, stdout=None):
     except subprocess.TimeoutExpired as ex:
         raise Inconclusive("timeout after %ss: %s" % (timeout, " ".join(cmd)[:200]))
     if check and p.returncode != 0:
+        lc = library_crash(p.stdout or "")
+        if lc:
+            raise LibraryPanic(lc[0], lc[1], os.path.basename(cmd[0]))
         raise Inconclusive("command failed (%d): %s\n%s" % (p.returncode, " ".join(cmd)[:300], (p.stdout or "")[-3000:]))
     return p
 
